@@ -1635,9 +1635,12 @@ class GMod(G):
             k = self.i(1, 9)
             out.append(("let", "ch_" + name, ("chan", None if self.chance(50) else ("num", 1.0))))
             out.append(("fn", "feed_" + name, ["c"], [("expr", ("send", ("var", "c"), ("num", float(k))))]))
-            out.append(("launch", ("call", ("var", "feed_" + name), [("var", "ch_" + name)])))
-            out.append(("let", "got_" + name, ("recv", ("var", "ch_" + name))))
-            out.append(("print", ("interp", ["got ", ("var", "got_" + name)])))
+            # one to three rounds: the body parks several times, so an importer that is woken more than once in the
+            # meantime has to go back to sleep every time
+            for rnd in range(self.i(1, 3)):
+                out.append(("launch", ("call", ("var", "feed_" + name), [("var", "ch_" + name)])))
+                out.append(("let", "got%d_%s" % (rnd, name), ("recv", ("var", "ch_" + name))))
+                out.append(("print", ("interp", ["got ", ("var", "got%d_%s" % (rnd, name))])))
             self.blocking_modules = getattr(self, "blocking_modules", 0) + 1
         exports = {}
         priv = "priv%d" % idx
@@ -1735,8 +1738,17 @@ class GMod(G):
             # fibers launched before the imports: when they finish they wake their launcher, which may be in the
             # middle of an import by then
             main.append(("fn", "bg", ["k"], [("let", "t", ("bin", "+", ("var", "k"), ("num", 1.0)))]))
+            # a slow one finishes later than the others (it waits for a fiber of its own first): the importer is woken at
+            # two different moments
+            main.append(("fn", "echo", ["c", "n"], [("for", "i", ("call", ("prop", ("var", "n"), "times"), []),
+                                                    [("expr", ("send", ("var", "c"), ("var", "i")))])]))
+            main.append(("fn", "bgslow", ["n"], [("let", "c2", ("chan", None)), ("launch", ("call", ("var", "echo"), [("var", "c2"), ("var", "n")])),
+                                                 ("for", "i", ("call", ("prop", ("var", "n"), "times"), []), [("let", "t", ("recv", ("var", "c2")))])]))
             for j in range(self.i(1, 3)):
-                main.append(("launch", ("call", ("var", "bg"), [("num", float(j))])))
+                if self.chance(50):
+                    main.append(("launch", ("call", ("var", "bgslow"), [("num", float(self.i(1, 3)))])))
+                else:
+                    main.append(("launch", ("call", ("var", "bg"), [("num", float(j))])))
         # the library modules of the same names, imported before or after the project ones
         std_pending = [("import", ["std", n], ("whole", "std_" + n)) for n in self.used_std if self.chance(70)]
         if std_pending and self.chance(50):
